@@ -141,7 +141,7 @@ pub fn main(args: &Args) -> i32 {
         "C19",
         &args.tier,
         args.seed,
-        "proptest attribute soup: enum with 0-4 enum-level attributes and 1-4 variants (unit, one-field, empty-tuple, multi-field, named) carrying 0-3 attributes drawn from pools of well-formed and malformed/duplicated #[logos]/#[token]/#[regex]/#[error] forms, generics incl. const; 35% carry a constructively generated must-reject item (empty match, start look-behind, Unicode \\b, greedy dot without allow_greedy, undefined subpattern, named/empty/multi-field variant, const generic); oracle: no panic (catch_unwind), output parses as Rust, must-reject => compile_error present, accepted => graph error-free with a root that records nothing; non-trivial = distinct inputs with a malformed/duplicated attribute or a must-reject item; second generator: the definition families of the other checks (core, subpattern incl. planted bad references, literal, conflict) judged for panic-freedom and soundness of accepted definitions (non-trivial there = definitions with subpatterns or non-ASCII text); third generator: a few patterns with nested counted repetitions whose counts multiply beyond usize (no panic)",
+        "proptest attribute soup: enum with 0-4 enum-level attributes and 1-4 variants (unit, one-field, empty-tuple, multi-field, named) carrying 0-3 attributes drawn from pools of well-formed and malformed/duplicated #[logos]/#[token]/#[regex]/#[error] forms, generics incl. const; 35% carry a constructively generated must-reject item (empty match, start look-behind, Unicode \\b, greedy dot without allow_greedy, undefined subpattern, named/empty/multi-field variant, const generic); oracle: no panic (catch_unwind), output parses as Rust, must-reject => compile_error present, accepted => graph error-free with a root that records nothing; non-trivial = distinct inputs with a malformed/duplicated attribute or a must-reject item; second generator: the definition families of the other checks (core, subpattern incl. planted bad references, literal, conflict) judged for panic-freedom and soundness of accepted definitions (non-trivial there = definitions with subpatterns or non-ASCII text); before the soup every must-reject class is derived once on its own in an otherwise acceptable definition; third generator: a few patterns with nested counted repetitions whose counts multiply beyond usize (no panic)",
     );
     run.assumptions = vec!["library entry point (proc_macro2 fallback spans); the real proc-macro on stable is exercised by tier P".into()];
     if let Some(path) = &args.replay {
@@ -164,6 +164,34 @@ pub fn main(args: &Args) -> i32 {
     let cases = if args.cases > 0 { args.cases } else if args.thorough() { 100000 } else { 6000 };
     // panics are expected to be caught: keep the default hook quiet
     std::panic::set_hook(Box::new(|_| {}));
+    // every must-reject class once on its own, in a definition that is acceptable otherwise: whether the soup draws a
+    // class in a definition without other errors is a matter of luck, this pass is not
+    for (attr, reason) in model::soup::MUST_REJECT_ATTRS {
+        for extra in ["", "#[logos(skip \" +\")]\n"] {
+            let src = format!("#[derive(Logos)]\n{extra}enum T {{\n    {attr}\n    V0,\n    #[token(\"zq\")]\n    V1,\n}}\n");
+            let d = derive_rust(src.clone());
+            run.eval(1);
+            run.count("must_reject_classes_alone", 1);
+            if let Err(msg) = judge(&src, Some(reason), true, &d) {
+                run.violations = 1;
+                report_violation("C19", &args.replay_dir, &json!({"property": "C19", "tier": "G", "source": src, "must_reject": reason, "fragments_ok": true, "findings": [{"property": "C19", "what": msg}]}));
+                run.write_evidence(&args.evidence);
+                return 1;
+            }
+        }
+    }
+    for (shape, reason) in model::soup::MUST_REJECT_SHAPES {
+        let src = format!("#[derive(Logos)]\nenum T {{\n    #[token(\"mr\")]\n    V0{shape},\n    #[token(\"zq\")]\n    V1,\n}}\n");
+        let d = derive_rust(src.clone());
+        run.eval(1);
+        run.count("must_reject_classes_alone", 1);
+        if let Err(msg) = judge(&src, Some(reason), true, &d) {
+            run.violations = 1;
+            report_violation("C19", &args.replay_dir, &json!({"property": "C19", "tier": "G", "source": src, "must_reject": reason, "fragments_ok": true, "findings": [{"property": "C19", "what": msg}]}));
+            run.write_evidence(&args.evidence);
+            return 1;
+        }
+    }
     let res = drive(&soup_strategy(), cases, args.seed ^ 0xC19, 800, &mut run, |c, run| check(c, run));
     let code = match res {
         DriveResult::Pass => 0,
